@@ -140,6 +140,8 @@ def concretise(d, lang="yaql", form=0):
             ts["action"] = val_expr(lang, td["actionx"], form)
         if td.get("inputx"):
             ts["input"] = {"p": val_expr(lang, td["inputx"], form)}
+        if td.get("inputxx"):       # several parameters, each its own expression (same variable, different text)
+            ts["input"] = {"p%d" % i: val_expr(lang, e, form + i) for i, e in enumerate(td["inputxx"])}
         if td["join"] != 0:
             ts["join"] = "all" if td["join"] == -1 else (0 if td["join"] == -2 else td["join"])
         if td["delay"] != -1:
